@@ -5,9 +5,10 @@ set -u
 export GOFLAGS=-mod=mod GOPROXY=off GOSUMDB=off GOTOOLCHAIN=local
 p=$1; shift
 cd /repo
-if ! git apply --3way "$p" 2>/tmp/fixtry.err; then patch -p1 --no-backup-if-mismatch < "$p" || { cat /tmp/fixtry.err; echo "PATCH FAILED"; exit 2; }; fi
+[ -z "$(git status --porcelain)" ] || { echo "PATCH FAILED: /repo working tree not clean"; exit 2; }
+if ! git apply "$p" 2>/tmp/fixtry.err; then patch -p1 -F3 --no-backup-if-mismatch < "$p" || { cat /tmp/fixtry.err; git checkout -f -- .; git clean -fdq; echo "PATCH FAILED"; exit 2; }; fi
 git status --short
-go build ./pkg/... && go build -tags verif ./pkg/... || { echo BUILD FAILED; exit 2; }
+go build ./pkg/... && go build -tags verif ./pkg/... || { git checkout -f -- .; echo BUILD FAILED; exit 2; }
 go test -vet=off -count=1 ./pkg/... ./test/... 2>&1 | grep -v 'no test files' | tail -4
 cd /verif
 for c in "$@"; do ./check $c 2>&1 | grep -E "^(VIOLATION|KNOWN|MACHINERY|C[0-9]+ quick)" | cut -c1-260; done
